@@ -595,29 +595,38 @@ class Network:
             name=f"indirect-connect-{username}-{typ}-{ticket}"
         )
 
-        pending = {direct_task, indirect_task}
-        while pending:
-            done, pending = await asyncio.wait(pending, return_when=asyncio.FIRST_COMPLETED)
+        tasks = (direct_task, indirect_task)
+        pending = set(tasks)
+        try:
+            while pending:
+                done, pending = await asyncio.wait(pending, return_when=asyncio.FIRST_COMPLETED)
 
-            connections = []
-            for done_task in done:
-                try:
-                    connections.append(done_task.result())
-                except Exception:
-                    pass
+                connections = []
+                for done_task in done:
+                    try:
+                        connections.append(done_task.result())
+                    except Exception:
+                        pass
 
-            if connections:
+                if connections:
 
-                if pending:
-                    for pending_task in pending:
-                        logger.debug("cancelling connect task : %s", pending_task.get_name())
-                        pending_task.cancel()
-                    await asyncio.gather(*pending, return_exceptions=True)
+                    if pending:
+                        for pending_task in pending:
+                            logger.debug("cancelling connect task : %s", pending_task.get_name())
+                            pending_task.cancel()
+                        await asyncio.gather(*pending, return_exceptions=True)
 
-                if len(connections) > 1:
-                    await connections[1].disconnect(CloseReason.REQUESTED)
+                    if len(connections) > 1:
+                        await connections[1].disconnect(CloseReason.REQUESTED)
 
-                return connections[0]
+                    return connections[0]
+
+        finally:
+            # When this request itself gets cancelled the attempts should not
+            # keep running
+            for task in tasks:
+                if not task.done():
+                    task.cancel()
 
         raise PeerConnectionError(
             f"failed to connect to peer {username} ({typ=}, {ticket=})")
